@@ -29,6 +29,9 @@ def build(d):
         return d["v"]
     if t == "opaque":
         return object()
+    if t == "datetime":
+        import datetime
+        return datetime.datetime(1, 1, 1) + datetime.timedelta(microseconds=int(d["us"]))
     if t == "list":
         return [build(x) for x in d["items"]]
     if t == "tuple":
